@@ -50,6 +50,42 @@ P = {
         text="Separable sums of singular atoms (17 scalar, 7 vectorised, L2 norm) with coefficients of both signs are evaluated with some coordinates exactly on the singular set through compile_gradient, compile_jacobian (1 and 3 rows) and compile_hessian under four variable-list relations; every entry must be finite, singular first-derivative entries must equal the hand-specified class (0 / +-1e16), regular entries must equal the jet reference, and the vectorised and element-wise spellings must agree. Composite 0*inf forms are judged for finiteness only.",
         ref="3/C19",
     ),
+    "C05": dict(
+        level="exploration",
+        technique="runtime monitoring: data-first LP generator; extracted LP compared with reference interpreter at n+1 affinely independent points per model",
+        text="Linear models are drawn as data and written in random mixes of API syntax; for each, LinearProgramExtractor's cost vector (+ constant), every A_ub/A_eq row and right-hand side (with >= negation and block order), column names, bounds, and the public extract_linear_coefficient / extract_constant_term are compared with the reference interpreter's value of the written expressions at 0, e_1..e_n and a random point (which determines an affine map: exhaustive per model). A self-check that recipe == data guards the oracle.",
+        ref="3/C05",
+    ),
+    "C06": dict(
+        level="exploration",
+        technique="runtime monitoring: postcondition OPTIMAL=>feasible checked by reference evaluation on real solves and on an enumerated stubbed-solver result matrix (minimize / linprog seams)",
+        text="(A) feasible, infeasible-by-construction and boundary problems are solved with every documented method plus COBYLA/Powell/TNC/CG under hostile options; (B) the minimize and linprog seams are stubbed with an enumerated matrix of scripted results (success x termination messages x kinds of returned point x sense x tol x method; linprog statuses 0-4), driving every branch of both status mappings. Every OPTIMAL solution's constraints and bounds are re-evaluated by the independent interpreter.",
+        ref="3/C06",
+    ),
+    "C07": dict(
+        level="exploration",
+        technique="runtime monitoring: Solution postconditions (objective value == reference objective at returned values; keys == problem variables) + handle-retrieval table",
+        text="Every solve of generated LP/NLP problems (all statuses, both orientations, constant-only objectives, objectives over a subset of the constraint variables, 10 methods) is observed by an oracle that recomputes the objective with the reference interpreter at the returned values and compares key sets; 23 handle kinds (slices, reversed slices, rows, columns, transposes, sub-matrices, symmetric) are retrieved from solved models with pairwise distinct optimal values.",
+        ref="3/C07",
+    ),
+    "C08": dict(
+        level="exploration",
+        technique="runtime monitoring: differential solve against scipy.optimize.linprog on the canonical matrix form of the drawn data; linprog seam recorder on repeated solves",
+        text="Optimal, infeasible (Farkas pair) and unbounded linear models written in random syntax are solved through optyx with auto/linprog/highs/highs-ds/highs-ipm, min and max, three times per problem object (cold, cached LP data, after an unrelated model); status and objective are compared with a direct HiGHS call on the canonical form of the data, and the arrays at the linprog seam must equal that form on every solve.",
+        ref="3/C08",
+    ),
+    "C09": dict(
+        level="exploration",
+        technique="runtime monitoring: online checker of every callable evaluation at the minimize seam (jet reference) + differential run against raw SciPy on manufactured-optimum convex problems",
+        text="Strictly convex problems with a manufactured KKT point (5 families, equality/inequality/bounds active or not, min and max of the negation) are solved with auto, SLSQP, trust-constr, L-BFGS-B, BFGS; every fun/jac/hess/constraint evaluation the solver makes is compared online with the jet reference, handed bounds/x0/method are checked, and the result is compared with raw scipy.optimize.minimize given reference callables and the same start.",
+        ref="3/C09",
+    ),
+    "C10": dict(
+        level="exploration",
+        technique="runtime monitoring: enumerated operand-kind matrix of relations; Constraint.violation/is_satisfied and the SciPy constraint dicts captured at the minimize seam probed against reference values and jet gradients",
+        text="7 lhs kinds x rhs kinds x {<=,>=,==} x direct/reflected spelling (incl. every shape mismatch) and random relations are built; count, type and pairing of element constraints, violation and is_satisfied off the boundary, and - via a stubbed solve - the fun/jac of every SciPy constraint dict are compared with reference lhs-rhs values and their jet gradients.",
+        ref="3/C10",
+    ),
 }
 
 PENDING = "check under construction in this round (see DESIGN.md section 3 for the planned monitor)"
